@@ -805,12 +805,9 @@ def pcmSeekPage (ph : Phys) (rawSeekF : Int → M Int) (pos : Int) : M Int := do
   if pos < 0 ∨ pos > pcmTotal vf (-1) then return OV_EINVAL
   execPlan rawSeekF (planSeekPage ph vf.tab pos)
 
-/-- `ov_pcm_seek` -/
-def pcmSeek (ph : Phys) (rawSeekF : Int → M Int) (pos : Int) : M Int := do
-  let ret ← pcmSeekPage ph rawSeekF pos
-  if ret < 0 then return ret
-  let r2 ← makeDecodeReady
-  if r2 ≠ 0 then return r2
+/-- the second half of `ov_pcm_seek`, entered with the decoder ready at a page boundary at or before `pos`:
+    drop whole packets undecoded, then decode and drop samples, up to `pos` -/
+def pcmSeekTail (ph : Phys) (pos : Int) : M Int := do
   -- discard leading packets we don't need for the lapping of the position we want
   let rec discard (fuel : Nat) (lastblock : Int) : M Int :=
     match fuel with
@@ -877,6 +874,14 @@ def pcmSeek (ph : Phys) (rawSeekF : Int → M Int) (pos : Int) : M Int := do
             skip f
   skip (2 * ph.work)
   return 0
+
+/-- `ov_pcm_seek` -/
+def pcmSeek (ph : Phys) (rawSeekF : Int → M Int) (pos : Int) : M Int := do
+  let ret ← pcmSeekPage ph rawSeekF pos
+  if ret < 0 then return ret
+  let r2 ← makeDecodeReady
+  if r2 ≠ 0 then return r2
+  pcmSeekTail ph pos
 
 /-- the link a time offset falls in (`ov_time_seek`, `ov_time_seek_page`): doubles as in the C -/
 def timeTarget (vf : VF) (seconds : Float) : Option Int :=
